@@ -228,7 +228,17 @@ def _check_own(ctx):
     # head arm / inner arm split on previous.is_zero()
     from .util import zero_splits
     ps = zero_splits(prog, dele, lambda a: all(is_call_to(prog, dele, x, lookup) and x.proj[-1:] == (_LC(prog, R)[1],) for x in a))
-    if ctx.check(len(ps) == 1, "delete-links", "head-or-inner-split", "cannot find the `previous.is_zero()` split in delete", where=where(dele)):
+    via_helper = _unlink_via_helper(prog, R, dele, lookup, r_del, from_found) if not ps else None
+    if via_helper:
+        # the unlink is delegated to a re-link helper whose contract (rules/relinkh.py) is decided on its body:
+        # h(hash of this key, predecessor of the found record, successor of the found record)
+        hb, why = via_helper
+        n_origin += 3
+        ctx.check(why is None, "delete-links", "helper-unlink", "delete hands the wrong values to its re-link helper: %s" % why, where=where(dele, hb))
+        for b, t in vf + kf:
+            ctx.check(dele.dominates(hb, b), "delete-links", "unlink-before-free:%s" % t["callee"].rsplit("::", 1)[-1],
+                      "a record is freed before it was unlinked from its chain", where=where(dele, b))
+    elif ctx.check(len(ps) == 1, "delete-links", "head-or-inner-split", "cannot find the `previous.is_zero()` split in delete", where=where(dele)):
         head_e, inner_e = ps[0]["true"], ps[0]["false"]
         r_head, r_inner = region_dominated(dele, head_e), region_dominated(dele, inner_e)
         hws = [(b, t) for b, t in calls_to(prog, dele, target_fn=R.need("HEAD_WRITE")) if b in r_head]
@@ -303,6 +313,35 @@ def _check_own(ctx):
     ctx.check(kf_fn.inputs[1] != vf_fn.inputs[1], "offset-types-distinct", "Key|Value", "key and value piece offsets are the same type")
     ctx.floor("origin-obligations", "origin obligations evaluated", n_origin, 11)
     ctx.sample({"put": put.id, "insert_arm_entry": put_none, "overwrite_arm_entry": put_some, "delete_found_entry": del_some})
+
+
+def _unlink_via_helper(prog, R, dele, lookup, r_del, from_found):
+    """(block of the helper call, None | what is wrong) when delete's found arm calls exactly one function satisfying the
+    re-link helper contract; None when there is no such call."""
+    from .relinkh import relink_contract
+    sites = []
+    for b, t in dele.calls():
+        if b not in r_del or dele.is_cleanup(b):
+            continue
+        for x in prog.targets(t, dele)[0]:
+            c = relink_contract(prog, R, x) if x.impl_self_adt == INNER else None
+            if c:
+                sites.append((b, t, c))
+    if len(sites) != 1:
+        return None
+    b, t, c = sites[0]
+    lk = calls_to(prog, dele, target_fn=lookup)
+    hk = {o.key() for o in origins(prog, dele, lk[0][1]["args"][1], at=lk[0][0])} if len(lk) == 1 else set()
+    a_hash = origins(prog, dele, t["args"][c["hash"] - 1], at=b)
+    a_prev = origins(prog, dele, t["args"][c["prev"] - 1], at=b)
+    a_new = origins(prog, dele, t["args"][c["new"] - 1], at=b)
+    if not (a_hash and hk and {o.key() for o in a_hash} == hk):
+        return b, "the hash is not the one the record was looked up under"
+    if not (a_prev and all(is_call_to(prog, dele, x, lookup) and x.proj[-1:] == (_LC(prog, R)[1],) for x in a_prev)):
+        return b, "the predecessor is not the one the lookup reported (%s)" % a_prev
+    if not from_found(a_new, pf(prog, "KeyPiece", "next")):
+        return b, "the new link is not the found record's successor (%s)" % a_new
+    return b, None
 
 
 def _after_unlink(fn, b, head_sites, inner_sites, split_block):
